@@ -348,8 +348,16 @@ def aggregator_rounds(case):
       if not seam_ok:
         seam_cap.append('recording seam saw %d quantised trees / %d keys for %d clients' % (len(recorded), len(keys), n))
       tot = float(sum(weights))
+      require(out is not None and jax.tree_util.tree_structure(out) == jax.tree_util.tree_structure(trees[0]),
+              name + ': the aggregate does not have the structure of the client trees', str(jax.tree_util.tree_structure(trees[0])),
+              str(jax.tree_util.tree_structure(out)), case=nc)
       got = [np.asarray(l, np.float64) for l in jax.tree_util.tree_leaves(out)]
-      for li, g in enumerate(got):
+      if tot == 0:
+        # a round whose clients all carry weight 0 (only empty clients were sampled): the mean is the zero tree, the
+        # clients still transmitted their quantised trees (the bit accounting below applies unchanged)
+        for g in got:
+          require(bool(np.all(g == 0)), name + ': total weight 0 must give the all-zero aggregate', 0, g.tolist(), case=nc)
+      for li, g in enumerate(got if tot > 0 else []):
         require(bool(np.all(np.isfinite(g))), name + ': aggregate contains NaN/Inf', case=nc)
         if seam_ok:
           want = sum(np.asarray(jax.tree_util.tree_leaves(q)[li], np.float64) * w for q, w in zip(recorded, weights)) / tot
@@ -473,7 +481,8 @@ def plan(ctx):
     for kind in (('vec', 'mat_scalar', 'nested') if th else ('vec', 'mat_scalar')):
       for n in (1, 2, 3):
         for w in itertools.product((0.0, 1.0, 2.0), repeat=n):
-          if sum(w) == 0 or (not th and n == 3 and w not in ((1.0, 1.0, 1.0), (0.0, 2.0, 1.0), (2.0, 0.0, 0.0))):
+          if (sum(w) == 0 and n == 3 and not th) or (sum(w) > 0 and not th and n == 3 and
+                                                     w not in ((1.0, 1.0, 1.0), (0.0, 2.0, 1.0), (2.0, 0.0, 0.0))):
             continue
           ac.append({'agg': a, 'tree': kind, 'weights': list(w), 'rounds': 3, 'seed': ctx.seed})
     ac.append({'agg': a, 'tree': 'vec', 'weights': [1.0, 1.0], 'rounds': 2, 'seed': ctx.seed, 'zero_leaf': True})
